@@ -247,6 +247,25 @@ def pops_in(t: T, event: T) -> List[str]:
     return out
 
 
+def _conjuncts(pc):
+    """The path condition with positive conjunctions (and negated disjunctions) taken apart."""
+    out = []
+    def go(c, pol):
+        if c.op == "bool" and c.a[0] == "and" and pol:
+            for x in c.a[1]:
+                go(x, True)
+        elif c.op == "bool" and c.a[0] == "or" and not pol:
+            for x in c.a[1]:
+                go(x, False)
+        elif c.op == "not":
+            go(c.a[0], not pol)
+        else:
+            out.append((c, pol))
+    for c, pol in pc:
+        go(c, pol)
+    return out
+
+
 def check_optional_keys(repo: Repo, run: Run, interp) -> None:
     """R7 (a key that is optional somewhere is optional everywhere): in the functions that decode a raw log record and its
     decomposed message, a dict key whose presence is tested on one path (`'or' in arg`) may be absent, so every read
@@ -277,6 +296,33 @@ def check_optional_keys(repo: Repo, run: Run, interp) -> None:
         for e in rec.effects:
             if e.kind == "mut-call" and e.key == "pop" and len(e.args) == 1 and e.func.endswith(fn.name):
                 reads.append(sym.POp("sub", e.base, e.args[0], e.pc, e.loops, e.trys, e.seq, e.func, e.lineno, e.col, e.path))
+        # R12 (each field present appears): a decoded field is stored when its raw key is PRESENT, not when the raw value is
+        # truthy - `if raw.get('or'):` drops a present key whose value is 0 (string number 0 of the index), '' or b''
+        for e in rec.effects:
+            if e.kind != "sub-store" or not e.func.endswith(fn.name) or e.value is None:
+                continue
+            for c, pol in _conjuncts(e.pc):
+                atom, apol = render.norm_bool(c)
+                if not (pol if apol else not pol):
+                    continue
+                key_dict = None
+                if atom.op == "call" and atom.a[0].op == "attr" and atom.a[0].a[1] == "get" and 1 <= len(atom.a[1]) <= 2 \
+                        and atom.a[1][0].op == "const" and isinstance(atom.a[1][0].a[0], str) \
+                        and (len(atom.a[1]) == 1 or atom.a[1][1].op == "const" and not atom.a[1][1].a[0]):
+                    key_dict = (atom.a[1][0], atom.a[0].a[0])
+                elif atom.op == "sub" and atom.a[1].op == "const" and isinstance(atom.a[1].a[0], str):
+                    key_dict = (atom.a[1], atom.a[0])
+                if key_dict is None:
+                    continue
+                raw_read = T("sub", (key_dict[1], key_dict[0]))
+                if e.value.op == "comp" and len(e.value.a[2]) == 1 and e.value.a[2][0][1] in (raw_read, atom):
+                    continue        # a list built element by element from the raw list: an empty raw list gives the empty default
+                if sym.contains(e.value, raw_read) or sym.contains(e.value, atom):
+                    run.ob("R12", mod.name, qn, f"field stored at line {e.lineno} when its raw key {key_dict[0].a[0]!r} is present", False,
+                           f"{qn} stores the value decoded from raw key {key_dict[0].a[0]!r} only when that raw value is truthy "
+                           f"(`{sym.pretty(atom)[:50]}`): a record where the key is present with the value 0 / '' / b'' (string number 0 "
+                           f"of the string index, an empty representation) loses the field", line=e.lineno,
+                           witness=f"a raw record whose {key_dict[0].a[0]!r} is 0")
         seen = set()
         for p in reads:
             hit = next(((k, d) for k, d in tested if k == p.key and d in (p.base, p.path)), None)
@@ -298,7 +344,31 @@ def check_optional_keys(repo: Repo, run: Run, interp) -> None:
     run.floor("R7", "(key, dict) pairs whose presence is tested", n_tested, 30)
 
 
+def _take_over(run, mod_name: str, prop: str, repo, select, rule: str, label: str, why: str, floor: int) -> None:
+    """Obligations of another check that are necessary conditions here as well (judged there, reported here too)."""
+    import importlib
+    from ..model import AnalysisError as _AE
+    other = importlib.import_module(f"vstatic.rules.{mod_name}")
+    probe = Run(prop, run.tier, run.repo_root)
+    probe.is_probe = True           # (a check run for its obligations only: it does not take over from others in turn)
+    try:
+        other.check(repo, probe)
+    except _AE:
+        pass            # the floor below fails if the obligations were not reached
+    n = 0
+    for o in probe.obligations:
+        if select(o):
+            n += 1
+            run.ob(rule, o["module"], o["scope"], f"{label} ({prop}/{o['rule']}): {o['construct']}", o["ok"],
+                   (o.get("what", "") + " - " + why) if not o["ok"] else "", nontrivial=False)
+    run.floor(rule, f"{label}: obligations taken over from {prop}", n, floor)
+
+
 def check(repo: Repo, run: Run) -> None:
+    if not getattr(run, "is_probe", False):
+        _take_over(run, "c03", "C03", repo, lambda o: o["rule"] == "R6" and "every collected log record is decoded in order" in o["construct"], "R0",
+                   "container side", "the same records parsed out of a version-3 file are then not all yielded: a record lacking "
+                   "an optional key is decoded and dropped", 1)
     interp = sym.Interp(repo)
     check_optional_keys(repo, run, interp)
     mod = repo.module("os_log_event")
